@@ -53,6 +53,11 @@ M = [
     ("c08_session_present", "C08", "broker/client.go", "connack.SessionPresent = !pkt.CleanSession && resumed", "connack.SessionPresent = !pkt.CleanSession && (resumed || true)"),
     ("c08_pubrec_deletes", "C08", "broker/client.go", "\t// overwrite stored publish with the pubrel packet\n\terr := c.session.SavePacket(session.Outgoing, pubrel)", "\t// overwrite stored publish with the pubrel packet\n\terr := c.session.DeletePacket(session.Outgoing, pubrel.ID)"),
     ("c08_clean_keeps_stored", "C08", "broker/backend.go", "\t\t// delete any stored session\n\t\tdelete(m.storedSessions, id)\n\n\t\t// create new session", "\t\t// create new session"),
+    # ---- C16
+    ("c16_token_on_pubrec", "C16", "broker/client.go", "\t// overwrite stored publish with the pubrel packet\n", "\tselect {\n\tcase c.dequeueTokens <- struct{}{}:\n\tdefault:\n\t}\n\n\t// overwrite stored publish with the pubrel packet\n"),
+    ("c16_resend_not_charged", "C16", "broker/client.go", "\t\tselect {\n\t\tcase <-c.dequeueTokens:\n\t\tdefault:\n\t\t\t// continue if depleted\n\t\t}\n", ""),
+    ("c16_qos0_token_kept", "C16", "broker/client.go", "\t\tif publish.Message.QOS == 0 {\n\t\t\tselect {\n\t\t\tcase c.dequeueTokens <- struct{}{}:", "\t\tif publish.Message.QOS == 0 && false {\n\t\t\tselect {\n\t\t\tcase c.dequeueTokens <- struct{}{}:"),
+    ("c16_pubcomp_no_token", "C16", "broker/client.go", "\tcase *packet.Pubcomp:\n\t\terr = c.processPubackAndPubcomp(typedPkt.ID)", "\tcase *packet.Pubcomp:\n\t\terr = c.session.DeletePacket(session.Outgoing, typedPkt.ID)"),
     # ---- C20
     ("c20_suback_reversed", "C20", "broker/client.go", "\t\tsuback.ReturnCodes[i] = subscription.QOS", "\t\tsuback.ReturnCodes[len(pkt.Subscriptions)-1-i] = subscription.QOS"),
     ("c20_ignore_unexpected", "C20", "broker/client.go", "\tdefault:\n\t\terr = c.die(ClientError, ErrUnexpectedPacket)\n\t}\n\n\t// return eventual error", "\tdefault:\n\t}\n\n\t// return eventual error"),
